@@ -13,6 +13,7 @@ import (
 	"time"
 
 	limit "github.com/influxdata/influxdb/pkg/limiter"
+	"github.com/influxdata/influxdb/pkg/verifhook"
 )
 
 // Possible errors returned by a hinted handoff queue.
@@ -435,6 +436,9 @@ func (l *queue) trimHead() error {
 		if err := os.Remove(l.head.path); err != nil {
 			return err
 		}
+		if verifhook.Enabled {
+			verifhook.Point("hh.removed", l.head.path)
+		}
 		l.head = l.segments[0]
 	}
 	return nil
@@ -505,12 +509,21 @@ func (l *segment) open() error {
 		l.pos = 0
 		l.currentSize = 0
 
+		if verifhook.Enabled {
+			verifhook.Point("hh.write.begin", l.path, int64(0), footerSize)
+		}
 		if err := l.writeUint64(uint64(l.pos)); err != nil {
 			return err
+		}
+		if verifhook.Enabled {
+			verifhook.Point("hh.write.end", l.path)
 		}
 
 		if err := l.file.Sync(); err != nil {
 			return err
+		}
+		if verifhook.Enabled {
+			verifhook.Point("hh.synced", l.path)
 		}
 
 		l.size = footerSize
@@ -603,12 +616,21 @@ func (l *segment) flush() error {
 		return err
 	}
 
+	if verifhook.Enabled {
+		verifhook.Point("hh.write.begin", l.path, l.size-footerSize, buf.Len())
+	}
 	if err := l.writeBytes(buf.Bytes()); err != nil {
 		return err
+	}
+	if verifhook.Enabled {
+		verifhook.Point("hh.write.end", l.path)
 	}
 
 	if err := l.file.Sync(); err != nil {
 		return err
+	}
+	if verifhook.Enabled {
+		verifhook.Point("hh.synced", l.path)
 	}
 
 	if l.currentSize == 0 {
@@ -666,17 +688,29 @@ func (l *segment) truncate() error {
 		return err
 	}
 
+	if verifhook.Enabled {
+		verifhook.Point("hh.write.begin", l.path, int64(l.pos), footerSize)
+	}
 	if err := l.writeUint64(uint64(l.pos)); err != nil {
 		return err
+	}
+	if verifhook.Enabled {
+		verifhook.Point("hh.write.end", l.path)
 	}
 
 	size := int64(l.pos) + footerSize
 	if err := l.file.Truncate(size); err != nil {
 		return err
 	}
+	if verifhook.Enabled {
+		verifhook.Point("hh.truncated", l.path, size)
+	}
 
 	if err := l.file.Sync(); err != nil {
 		return err
+	}
+	if verifhook.Enabled {
+		verifhook.Point("hh.synced", l.path)
 	}
 
 	l.currentSize = 0
@@ -705,12 +739,21 @@ func (l *segment) advance() error {
 	}
 
 	pos := l.pos + l.currentSize + 8
+	if verifhook.Enabled {
+		verifhook.Point("hh.write.begin", l.path, l.size-footerSize, footerSize)
+	}
 	if err := l.writeUint64(uint64(pos)); err != nil {
 		return err
+	}
+	if verifhook.Enabled {
+		verifhook.Point("hh.write.end", l.path)
 	}
 
 	if err := l.file.Sync(); err != nil {
 		return err
+	}
+	if verifhook.Enabled {
+		verifhook.Point("hh.synced", l.path)
 	}
 	l.pos = pos
 
